@@ -10,6 +10,7 @@ import (
 	"encoding/base64"
 	"encoding/json"
 	"fmt"
+	"sync"
 
 	"github.com/btcsuite/btcd/btcec"
 
@@ -100,12 +101,64 @@ func NewKeyPair(kt KeyType) (priv interface{}, pub interface{}, signer Signer, e
 	return nil, nil, nil, fmt.Errorf("unknown key type %d", kt)
 }
 
-// NewKeys generates n keys; typeOf chooses the key type per id.
+// NewKeyPairShort generates EC key pairs until the chosen coordinate ("x" or "y") has a leading zero byte, i.e. its
+// minimal big-endian encoding is shorter than the curve's coordinate size (1 key in 256; 1 in 2 for P-521) - the case in
+// which fixed-width JWK coordinate encoding matters.  Other key types / other values of coord: an ordinary key pair.
+func NewKeyPairShort(kt KeyType, coord string) (priv interface{}, pub interface{}, signer Signer, err error) {
+	for tries := 0; ; tries++ {
+		priv, pub, signer, err = NewKeyPair(kt)
+		if err != nil || kt == Ed25519 || (coord != "x" && coord != "y") || tries > 100000 {
+			return
+		}
+		pk := pub.(*ecdsa.PublicKey)
+		size := (pk.Curve.Params().BitSize + 7) / 8
+		v := pk.X
+		if coord == "y" {
+			v = pk.Y
+		}
+		if len(v.Bytes()) < size {
+			return
+		}
+	}
+}
+
+type pooledKey struct {
+	priv, pub interface{}
+	signer    Signer
+}
+
+var (
+	shortMu   sync.Mutex
+	shortPool = map[string][]pooledKey{}
+)
+
+// pooledShort returns the k-th short-coordinate key of a type from a process-wide pool (finding one takes ~256 key
+// generations, so the keys are shared between key sets; within one set they are distinct).  Ordinary keys are fresh.
+func pooledShort(kt KeyType, coord string, k int) (interface{}, interface{}, Signer, error) {
+	if kt == Ed25519 || coord == "" {
+		return NewKeyPair(kt)
+	}
+	shortMu.Lock()
+	defer shortMu.Unlock()
+	id := fmt.Sprintf("%d/%s", kt, coord)
+	for len(shortPool[id]) <= k {
+		priv, pub, signer, err := NewKeyPairShort(kt, coord)
+		if err != nil {
+			return nil, nil, nil, err
+		}
+		shortPool[id] = append(shortPool[id], pooledKey{priv, pub, signer})
+	}
+	e := shortPool[id][k]
+	return e.priv, e.pub, e.signer, nil
+}
+
+// NewKeys generates n keys; typeOf chooses the key type per id.  Every third key has a short x coordinate and every
+// third a short y coordinate (see NewKeyPairShort).
 func NewKeys(n int, hash uint, typeOf func(id int) KeyType) (*Keys, error) {
 	ks := &Keys{Hash: hash, ByID: map[int]*Key{}, byC: map[string]int{}}
 	for i := 1; i <= n; i++ {
 		kt := typeOf(i)
-		priv, pub, signer, err := NewKeyPair(kt)
+		priv, pub, signer, err := pooledShort(kt, []string{"", "x", "y"}[i%3], i/3)
 		if err != nil {
 			return nil, err
 		}
